@@ -68,6 +68,34 @@ SPINNERS = {
     "callback-recursion": ("var cr = function(n){ if (n > 150) { while(true){ hit(); } } [1].forEach(function(){ cr(n + 1); }); }; cr(0);", "loop"),
 }
 
+# Regexes that reach the evaluation from elsewhere, already used once (a matcher that remembers
+# the clock of its first use keeps polling that one), and regexes whose lastIndex is a script
+# accessor that throws when the built-in writes the previous value back (script code running
+# while the stop unwinds through the built-in must not replace the stop).
+LONG = '"' + "a" * 40 + '"'
+REGEX_USES = {
+    "test": "%(R)s.test(%(X)s)",
+    "exec": "%(R)s.exec(%(X)s)",
+    "search": "%(X)s.search(%(R)s)",
+    "match": "%(X)s.match(%(R)s)",
+    "replace": "%(X)s.replace(%(R)s, 'x')",
+    "split": "%(X)s.split(%(R)s)",
+}
+for _api, _use in sorted(REGEX_USES.items()):
+    # shared(): built and used in another Context that has no time limit
+    SPINNERS["regex-shared-" + _api] = ("var sr = shared(); for(;;){ hit(); %s; }" % (_use % {"R": "sr", "X": CATA}), "loop")
+    # mkre(): built and used by a re-entrant eval() of this context made by an exposed callable
+    SPINNERS["regex-reentry-" + _api] = ("var rr = mkre(); for(;;){ hit(); %s; }" % (_use % {"R": "rr", "X": CATA}), "loop")
+    # pre: a global regex built and used by an earlier eval() of this context
+    SPINNERS["regex-earlier-" + _api] = ("for(;;){ hit(); %s; }" % (_use % {"R": "pre", "X": CATA}), "loop")
+    # one unmatchable input, lastIndex (7) made an accessor whose setter throws for anything but 0: before the
+    # match starts a built-in only ever writes 0 (String.prototype.search), so only a restore can throw
+    for _fl in ("", "g"):
+        SPINNERS["regex-hooked%s-%s" % (_fl, _api)] = (
+            "var rh = /(a+)+b/%s; rh.lastIndex = 7; try { Object.defineProperty(rh, 'lastIndex', { get: function(){ return 7; }, "
+            "set: function(v){ if (v !== 0) throw 'restore'; }, configurable: true }); } catch (e9) { } "
+            "hit(); try { %s; } catch (e8) { }" % (_fl, _use % {"R": "rh", "X": LONG}), "loop")
+
 # Sites: templates with %(S)s = spinner statements.  Every site *runs* the code.
 SITES = {
     "top": "%(S)s",
@@ -196,6 +224,23 @@ def run_case(case):
     ctx = m.Context(memory_limit=mem, time_limit=T)
     ctx.set("hit", hit)
     ctx.set("reenter", lambda: ctx.eval("var reentered = 1; reentered + 1"))
+    if "shared()" in src:
+        shelf = {}
+        other = m.Context()
+        other.set("publish", lambda v: shelf.__setitem__("re", v))
+        other.eval("var re0 = /(a+)+b/; re0.test('xaab'); re0.lastIndex = 0; publish(re0);")
+        ctx.set("shared", lambda: shelf["re"])
+    if "mkre()" in src:
+        made = {}
+        ctx.set("publish", lambda v: made.__setitem__("re", v))
+
+        def mkre():
+            ctx.eval("var re1 = /(a+)+b/; re1.test('xaab'); re1.lastIndex = 0; publish(re1);")
+            return made["re"]
+
+        ctx.set("mkre", mkre)
+    if "pre" in src:
+        ctx.eval("var pre = /(a+)+b/; pre.test('xaab'); pre.lastIndex = 0;")
     if clock:
         clock.reset()
     cpu0 = time.process_time()
